@@ -292,6 +292,12 @@ def _run(case, F, site, work):
     F.label(f"algo={case['algo']}")
     F.label(f"envs={'single' if E == 0 else E}")
     F.label(f"generations={min(G, 5)}")
+    if case.get("early_stop"):
+        F.label("ended-by-early-stopping" if G < 120 else "early-stop-case-ran-to-budget")
+        if G not in (99,) and G < 120:
+            F.fail(f"C20/{loop}/early_stop/generations", "with a target that is exceeded from the start the loop must stop in the generation in "
+                   "which 100 step entries exist (generation 99) and report every generation it ran", generations_reported=G,
+                   fitness_entries=[len(a.fitness) for a in new_pop])
     if len(new_pop) != P:
         F.fail(f"C20/{loop}/population_size", "returned population does not have the size it was given", got=len(new_pop), want=P)
     idx = [a.index for a in new_pop]
